@@ -8,6 +8,7 @@ import (
 	"go/types"
 	"os"
 	"regexp"
+	"sort"
 	"rscheck/rules/reent"
 	"strings"
 
@@ -108,6 +109,113 @@ var primRef = map[string]string{
 	"ReadFloat":         "U8@a Sw@a{253:Ret|254:Ret|255:Ret|d:Bytes Ret}",
 	"ReadDouble":        "Fix8",
 	"ReadLength":        "U8@a Sw@?{0:|1:U8|3:|d:Sw@a{128:Fix4BE|129:Fix8BE|d:}}",
+}
+
+// primTable: what a primitive consumes as a function of the first byte it
+// reads (RDB length / string / float encodings). Error outcomes consume
+// nothing more.
+var primTable = map[string]func(v int) string{
+	"readEncodedLength": lengthTable,
+	"ReadLength":        lengthTable,
+	"ReadString": func(v int) string {
+		switch {
+		case v>>6 == 0:
+			return "U8 Bytes"
+		case v>>6 == 1:
+			return "U8 U8 Bytes"
+		case v == 0x80:
+			return "U8 Fix4BE Bytes"
+		case v == 0x81:
+			return "U8 Fix8BE Bytes"
+		case v>>6 == 2:
+			return "U8"
+		}
+		switch v & 0x3f {
+		case 0:
+			return "U8 U8"
+		case 1:
+			return "U8 Fix2LE"
+		case 2:
+			return "U8 Fix4LE"
+		case 3:
+			return "U8 Len Len Bytes"
+		}
+		return "U8"
+	},
+	"ReadFloat": func(v int) string {
+		if v >= 253 {
+			return "U8"
+		}
+		return "U8 Bytes"
+	},
+}
+
+func lengthTable(v int) string {
+	switch {
+	case v>>6 == 1:
+		return "U8 U8"
+	case v == 0x80:
+		return "U8 Fix4BE"
+	case v == 0x81:
+		return "U8 Fix8BE"
+	}
+	return "U8"
+}
+
+var bindRe = regexp.MustCompile(`@\[[^\]]*\]|@[a-z?][0-9]*`)
+
+// primByFirstByte compares the partition of the 256 first-byte values computed
+// from the code (grammar.ByFirstByte) with the reference table.
+func primByFirstByte(c *core.Ctx, fn *core.Fn, name string, table func(int) string) {
+	rows, undec := grammar.ByFirstByte(c, func() *grammar.Spec {
+		spec := ReaderSpec(false)
+		delete(spec.Prims, "(*pkg/rdb.rdbReader)."+name)
+		return spec
+	}, fn)
+	key := "prim/" + name
+	if len(undec) > 0 {
+		c.Undecidedf("R2.grammar", key, fn.Decl.Pos(), "cannot extract the read grammar of primitive %s: %s", name, strings.Join(undec, "; "))
+		return
+	}
+	type miss struct {
+		got, want string
+		vals      []int
+	}
+	var bad []miss
+	opaque := false
+	for term, vals := range rows {
+		t := bindRe.ReplaceAllString(term, "")
+		t = strings.Join(strings.Fields(strings.ReplaceAll(t, "Ret", " ")), " ")
+		if strings.ContainsAny(t, "{}") {
+			opaque = true
+		}
+		byWant := map[string][]int{}
+		for _, v := range vals {
+			if w := table(v); w != t {
+				byWant[w] = append(byWant[w], v)
+			}
+		}
+		for w, vs := range byWant {
+			bad = append(bad, miss{t, w, vs})
+		}
+	}
+	switch {
+	case len(bad) == 0:
+		c.Okf("R2.grammar", key, fn.Decl.Pos(), "primitive %s: %d classes of first bytes, all as in the RDB format", name, len(rows))
+	case opaque:
+		c.Undecidedf("R2.grammar", key, fn.Decl.Pos(), "primitive %s: some branch after the first byte does not depend on that byte alone, e.g. first byte %#x reads `%s` (format: `%s`)", name, bad[0].vals[0], bad[0].got, bad[0].want)
+	default:
+		sort.Slice(bad, func(i, j int) bool { return bad[i].vals[0] < bad[j].vals[0] })
+		var parts []string
+		for i, m := range bad {
+			if i == 3 {
+				parts = append(parts, "...")
+				break
+			}
+			parts = append(parts, fmt.Sprintf("first byte %#x..%#x (%d values): reads `%s`, the format stores `%s`", m.vals[0], m.vals[len(m.vals)-1], len(m.vals), m.got, m.want))
+		}
+		c.Failf("R2.grammar", key, fn.Decl.Pos(), "primitive %s consumes other bytes than the RDB format stores: %s: the bytes that follow are mis-framed (every later key is corrupted or the load aborts)", name, strings.Join(parts, "; "))
+	}
 }
 
 var constRef = map[string]int64{
@@ -287,12 +395,13 @@ func Run(c *core.Ctx) {
 		if fn == nil {
 			continue
 		}
+		if table, ok := primTable[name]; ok {
+			primByFirstByte(c, fn, name, table)
+			continue
+		}
 		spec := ReaderSpec(false)
 		// the primitive under test must not be its own token
 		delete(spec.Prims, "(*pkg/rdb.rdbReader)."+name)
-		if name == "ReadString" || name == "ReadLength" {
-			// readEncodedLength is inlined
-		}
 		ex := grammar.New(c, spec)
 		got := ex.FuncTerm(fn)
 		compare(c, "R2.grammar", "prim/"+name, fn.Decl.Pos(), got, want, ex, "primitive "+name)
